@@ -5,6 +5,7 @@ import numpy as np
 import pandas as pd
 from .. import gen, pf, impl, scen
 from ..impl import Quiet
+from ..comp import split as SP
 
 ID = 'C14'
 THEOREMS = [
@@ -14,9 +15,9 @@ THEOREMS = [
     ('EAO.Properties.C03', 'EAO.C03.concatVec_block', 'the concatenated solution restricted to interval i is the i-th interval solution'),
     ('EAO.Properties.C01', 'EAO.C01.nodal_balance_split', 'the concatenated solution satisfies nodal balance at the original steps'),
     ('EAO.Properties.C04', 'EAO.C04.value_accounting_split', 'value accounting interval by interval'),
-]
-PARTIAL = ['split_equals_unsplit / split_le_unsplit (value relation to the UNSPLIT problem for uncoupled portfolios resp. storages with start level = end level) are not yet stated as theorems about the builders; they rest on the oracle (split vs unsplit on the real code, transport of the concatenated solution into the unsplit problem) only']
-COMPONENTS = ['per-interval assemble on captured asset problems vs the interval problems of setup_split_optim_problem', 'index shift / original step numbers of the joint mapping']
+] + SP.THEOREMS_C14_SPLIT
+PARTIAL = ['split = unsplit (value and dispatch, when nothing couples the intervals) is a per-instance certificate: theorem split_equals_unsplit(_bool) under the decidable witness splitWitness, which the driver evaluates EXACTLY on the real unsplit problem and the real interval problems of every uncoupled case (a false witness there is reported as a broken tie); it is not a theorem about the builders (\"for every uncoupled portfolio the witness holds\"). No witness exists when the unsplit problem needs the two-variable form of a contract and an interval gets by with one variable (different variable sets; feature witness:none, oracle only). split <= unsplit for storages with start level = end level rests on the oracle (transport of the concatenated solution into the unsplit problem) only']
+COMPONENTS = ['per-interval assemble on captured asset problems vs the interval problems of setup_split_optim_problem', 'index shift / original step numbers of the joint mapping', 'split-witness: exact evaluation of splitWitness (unsplit real problem renamed along the matching of the variables = block sum of the real interval problems)']
 RULE = ('random portfolios x interval sizes (aligned and not aligned with the horizon, incl. partial last interval); three streams: uncoupled assets only (value and dispatch equal to unsplit), storages with start=end level as only coupling (split <= unsplit, concatenated solution feasible for unsplit), anything (sum of interval optima, balance, limits, original steps); '
         'non-trivial = at least 2 non-empty intervals and a non-zero value; distinct by scenario hash')
 ASSUMPTIONS = ['values compared with tolerance 2e-6 relative']
@@ -189,6 +190,19 @@ def run_case(scn, drv):
             d0 = [x for x in k0 if x not in set(k1)][:2]
             d1 = [x for x in k1 if x not in set(k0)][:2]
             viol('mapping rows of the split problem differ from the unsplit ones: only unsplit %s, only split %s' % (d0, d1), what='steps')
+    # --- certificate: the unsplit problem IS the block sum of the interval problems (hypothesis of EAO.C14.split_equals_unsplit)
+    if scn['stream'] in ('uncoupled', 'blocks', 'storage', 'storage_ne') and len(rec['op'].c) <= 400:
+        try:
+            w = SP.witness_check(rec, rs, drv)
+            feats.append('witness:%s' % {True: 'true', False: 'false', None: 'none'}[w['witness']])
+            r['evaluated'] += 1
+            if w['witness'] is False and scn['stream'] == 'uncoupled':
+                # nothing couples the intervals by construction of the stream, yet the real unsplit problem is not the block sum
+                r['disagreements'].append({'component': 'split-witness', 'detail': 'uncoupled portfolio but splitWitness is false: ' + w['reason'][:300]})
+            if w['witness'] is True:
+                r['observed_witness'] = True
+        except Exception as e:
+            r['disagreements'].append({'component': 'split-witness', 'detail': 'witness could not be evaluated: %s: %s' % (type(e).__name__, str(e)[:200])})
     # --- optimise
     try:
         pf.solve_rec(rs)
